@@ -10,10 +10,12 @@ CLAIMED = {
         "Trace_C01 (TLA+) then decides, per recorded (SSA tape, register tape, results), that the register tape implements "
         "the SSA tape (symbolic execution), keeps the index discipline, and that point and slice results equal the "
         "reference bit for bit; Z-programs are re-evaluated in Integers by TLC. Flatten.tla models SsaTape::new (DAG to SSA tape); every "
-        "DAG of its bound is built through the real Context and the recorded tape compared with the predicted one.",
+        "DAG of its bound is built through the real Context and the recorded tape compared with the predicted one. Trace_Alloc (TLA+) "
+        "validates the real allocator step by step: one recorded event per SSA op, one action of Alloc.tla per event, emitted register ops / "
+        "panic outcome / slot count compared, and Alloc.tla's invariants evaluated in every state of the real run.",
    note="value agreement is sampled (specials + random points); opcode reference = UnaryOpcode/BinaryOpcode::eval and "
         "Context::eval (the graph evaluated directly); evaluations where a NaN reaches rand/mix are only counted",
-   technique="TLA+ design model (TLC exhaustive) + TLC-generated programs replayed into the real compiler + TLA+ trace validation",
+   technique="TLA+ design model (TLC exhaustive) + TLC-generated programs replayed into the real compiler + TLA+ trace validation (per case, and step by step against the model's actions)",
    design_ref="DESIGN.md section 3 C01"),
 }
 CLAIMED["C02"] = dict(
@@ -31,10 +33,12 @@ CLAIMED["C04"] = dict(
         "preserved under the trace, bookkeeping equation) and the choice-cursor model; the harness takes traces from all four real "
         "tracing evaluators, simplifies into the same and different budgets and along chains of nested boxes; Trace_C04 (TLA+) decides "
         "per simplify call: success, variable numbering and outputs kept, child register tape implements child SSA tape, and "
-        "bit-identical point / many-point / gradient / interval results on the traced domain (child vs parent and vs the original).",
+        "bit-identical point / many-point / gradient / interval results on the traced domain (child vs parent and vs the original). "
+        "Trace_Simplify (TLA+) replays every recorded call op by op through the actions of Simplify.tla: the child tape the model builds "
+        "must be the real child tape.",
    note="the traced domain is sampled (corners, midpoint, interior); a trace is used with the backend it came from; samples where a NaN "
         "occurs pointwise are not judged for interval-derived traces (C03 makes no claim there)",
-   technique="TLA+ design model (TLC exhaustive) + replay into real simplify + TLA+ trace validation",
+   technique="TLA+ design model (TLC exhaustive) + replay into real simplify + TLA+ trace validation (per call, and op by op against the model's actions)",
    design_ref="DESIGN.md section 3 C04")
 CLAIMED["C20"] = dict(
    text="TLC exhausts the choice-cursor model (interpreter cursor and JIT choice pointer with call save/restore: the k-th clause writes "
@@ -113,17 +117,20 @@ CLAIMED["C06"] = dict(
 CLAIMED["C07"] = dict(
    text="TLC exhausts the voxel-renderer model (every voxel set on a small column block, z-descending root loop with break, early exits, "
         "full / empty tiles over the closed box, first-hit search, merge clamp; four oracle policies: depth = brute-force heightmap, "
-        "gradient requested at the hit voxel, the code's assertion never fires); the harness renders stacked objects, voxel-aligned boxes "
+        "gradient requested at the hit voxel, a hit above the grid clamped to the grid depth, the code's assertion never fires) and emits every "
+        "voxel set of a small grid, which the harness realises and renders (expected heightmap recomputed by Trace_C07 from the voxel set); "
+        "the harness also renders stacked objects, voxel-aligned boxes "
         "and CSG on grids with unequal sides and depths that are not multiples of the root tile and records the brute-force heightmap "
         "and reference normals; Trace_C07 compares every column inside the claim.",
    note="reference normals come from the same backend's gradient evaluator on the unsimplified shape (C05 judges gradients)",
-   technique="TLA+ design model (TLC exhaustive) + replay into the real renderer + TLA+ trace validation",
+   technique="TLA+ design model (TLC exhaustive) + TLC-generated voxel sets replayed into the real renderer + TLA+ trace validation",
    design_ref="DESIGN.md section 3 C07")
 CLAIMED["C09"] = dict(
    text="TLC exhausts the task fan-out model (K workers, T tasks, cancel at any moment, per-worker private state re-initialised at will: "
         "all-or-nothing, nothing only if cancelled, a token never set gives a result, task outputs independent of worker and schedule); "
         "the harness runs 2D renders, voxel renders and meshes with no pool, the global pool and pools of 1..16 threads, sets the token "
-        "before the run, after exactly k polls (counted inside the cancel-poll hook) or never, perturbs task starts through the "
+        "before the run, after exactly k polls (counted inside the cancel-poll hook), in the middle of a task (at the k-th native call reported "
+        "by the JIT's bulk-driver hook) or never, perturbs task starts through the "
         "schedule-point hook, and evaluates one JIT tape from up to 16 threads; Trace_C09 applies the model's invariants to every run.",
    note="interleavings are perturbed, not enumerated, on the real code; the verdict never depends on timing",
    technique="TLA+ design model (TLC exhaustive) + hook-driven cancellation / schedule perturbation on the real code + TLA+ trace validation",
